@@ -8,7 +8,8 @@ ids="$*"
 [ -z "$ids" ] && ids=$(python3 -c "import json;print(' '.join(c['property_id'] for c in json.load(open('MANIFEST.json'))['checks']))")
 for id in $ids; do
   t0=$(date +%s)
-  timeout 5400 ./bin/symgo check $id --tier $tier > "$OUT/$id.$tier.log" 2>&1
+  extra=""; [ "$tier" = thorough ] && extra="--no-evidence"   # evidence/<ID>.json describes the quick run (what `vp check` repeats)
+  timeout 5400 ./bin/symgo check $id --tier $tier $extra ${WORKERS:+--workers $WORKERS} > "$OUT/$id.$tier.log" 2>&1
   rc=$?
   echo "$id $rc $(( $(date +%s) - t0 ))s $(grep -c '^KNOWN-FINDING' "$OUT/$id.$tier.log") $(date +%H:%M)" >> "$OUT/summary.$tier.txt"
 done
